@@ -291,15 +291,20 @@ class MonolithicDatastoreRegistryBridge(DatastoreRegistryBridge):
         if not rows:
             return
 
-        # Delete the rows from the records table
-        records_table.delete(["dataset_id"], *[{"dataset_id": row["dataset_id"]} for row in rows])
+        # Delete the rows from the records table and from the trash table in
+        # one transaction: the query above only sees trash rows that still
+        # have records, so a trash row left behind without its records (by a
+        # failure between two separate commits) could never be removed again.
+        with self._db.transaction():
+            # Delete the rows from the records table
+            records_table.delete(["dataset_id"], *[{"dataset_id": row["dataset_id"]} for row in rows])
 
-        # Delete those rows from the trash table.
-        self._db.delete(
-            self._tables.dataset_location_trash,
-            ["dataset_id", "datastore_name"],
-            *[{"dataset_id": row["dataset_id"], "datastore_name": row["datastore_name"]} for row in rows],
-        )
+            # Delete those rows from the trash table.
+            self._db.delete(
+                self._tables.dataset_location_trash,
+                ["dataset_id", "datastore_name"],
+                *[{"dataset_id": row["dataset_id"], "datastore_name": row["datastore_name"]} for row in rows],
+            )
 
 
 class MonolithicDatastoreRegistryBridgeManager(DatastoreRegistryBridgeManager):
